@@ -13,12 +13,7 @@ func main() {
 	seed := flag.Int64("seed", 1, "PRNG seed")
 	tier := flag.String("tier", "quick", "quick|thorough")
 	out := flag.String("out", "", "output directory")
-	repro := flag.Bool("repro", false, "run the defect reproduction")
 	flag.Parse()
-	if *repro {
-		c08.Repro()
-		return
-	}
 	if *out == "" {
 		os.Exit(2)
 	}
